@@ -70,6 +70,10 @@ def match_known(P, findings, case, obs, what):
         pred = getattr(P, "PREDICATES", {}).get(f["matcher"]["predicate"])
         if pred is None:
             continue
+        # a finding about the ACCURACY the property promises is a failure of the property oracle; it never excuses a
+        # disagreement between model and implementation (the model has the same interpolated inverse)
+        if what == "correspondence" and f["matcher"].get("applies_to") == "oracle":
+            continue
         try:
             if pred(case, obs, f["matcher"].get("params", {})):
                 return f
